@@ -137,6 +137,140 @@ func runC20(p *load.Program, r *oblig.Report) {
 	r.RequireCount(rule, len(sinks), 9)
 	c20FixedOffsets(p, r)
 	c20ConstIndex(p, r)
+	c20LegacyDecoders(p, r)
+}
+
+// c20LegacyDecoders: Client.DescribeGroups decodes the member metadata and assignment blobs with the root package's
+// hand-written readers (readInt32(r, sz, &v) style: the wire value comes back through a pointer, the remaining size is
+// threaded through parameters and results). The same taint rule applies to the functions reachable from the two
+// decoders: no allocation sized by a wire count that was not compared with the remaining size, no loop counted by one
+// without an exit on the read error.
+func c20LegacyDecoders(p *load.Program, r *oblig.Report) {
+	const rule = "C20.R4 legacy decoders of the Client stack bound their wire counts"
+	roots := []*ssa.Function{p.Func("", "decodeMemberMetadata"), p.Func("", "decodeMemberAssignments")}
+	scope := map[*ssa.Function]bool{}
+	var visit func(fn *ssa.Function)
+	visit = func(fn *ssa.Function) {
+		if fn == nil || fn.Blocks == nil || scope[fn] || !load.InModule(fn) {
+			return
+		}
+		scope[fn] = true
+		for _, anon := range fn.AnonFuncs {
+			visit(anon)
+		}
+		for _, b := range fn.Blocks {
+			for _, ins := range b.Instrs {
+				if c, ok := ins.(*ssa.Call); ok {
+					visit(c.Call.StaticCallee())
+				}
+			}
+		}
+	}
+	for _, fn := range roots {
+		if fn == nil {
+			r.Lost(rule, "kafka.decodeMemberMetadata / kafka.decodeMemberAssignments")
+			return
+		}
+		visit(fn)
+	}
+	isSize := func(v ssa.Value) bool {
+		// the remaining size: the int parameter that follows the *bufio.Reader, or the first result of a reader
+		switch x := v.(type) {
+		case *ssa.Parameter:
+			fn := x.Parent()
+			for i, prm := range fn.Params {
+				if prm == x && i > 0 && strings.HasSuffix(fn.Params[i-1].Type().String(), "bufio.Reader") {
+					return true
+				}
+			}
+		case *ssa.Extract:
+			if c, ok := x.Tuple.(*ssa.Call); ok && x.Index == 0 {
+				if f := c.Call.StaticCallee(); f != nil && scope[f] && f.Signature.Results().Len() == 2 {
+					return true
+				}
+			}
+		}
+		return false
+	}
+	cfg := an.TaintConfig{
+		InScope: func(fn *ssa.Function) bool {
+			top := fn
+			for top.Parent() != nil {
+				top = top.Parent()
+			}
+			return scope[fn] || scope[top]
+		},
+		OutSource: func(c *ssa.Call) (int, string, bool) {
+			f := c.Call.StaticCallee()
+			if f == nil || f.Pkg != p.SSAPkg("") {
+				return 0, "", false
+			}
+			switch n := an.RefFuncName(f); n {
+			case "readInt8", "readInt16", "readInt32", "readInt64", "readVarInt", "readArrayLen":
+				return 2, n, true
+			}
+			return 0, "", false
+		},
+		IsBoundExpr: func(v ssa.Value) bool {
+			switch x := v.(type) {
+			case *ssa.Const:
+				return true
+			case *ssa.Call:
+				if b, ok := x.Call.Value.(*ssa.Builtin); ok && (b.Name() == "len" || b.Name() == "cap") {
+					return true
+				}
+			case *ssa.UnOp:
+				// a named result or local that holds the remaining size
+				if a, ok := x.X.(*ssa.Alloc); ok && x.Op == token.MUL {
+					okAll, n := true, 0
+					for _, ref := range *a.Referrers() {
+						if st, isSt := ref.(*ssa.Store); isSt && st.Addr == ssa.Value(a) {
+							n++
+							if !isSize(st.Val) {
+								okAll = false
+							}
+						}
+					}
+					return okAll && n > 0
+				}
+			}
+			return isSize(v)
+		},
+	}
+	sinks := an.RunTaint(p.EveryModuleFunction(), cfg)
+	counts := map[string]int{}
+	for _, s := range sinks {
+		base := fmt.Sprintf("%s | %s ← %s", an.ShortFunc(s.Fn), s.Kind, s.Source)
+		counts[base]++
+		construct := base
+		if counts[base] > 1 {
+			construct = fmt.Sprintf("%s #%d", base, counts[base])
+		}
+		pos := p.Pos(s.Ins.Pos())
+		facts := append([]string{fmt.Sprintf("lower bound proven: %v, upper bound proven: %v", s.Lo, s.Hi)}, s.Why...)
+		if s.Kind != "makemap-hint" {
+			// a negative hint is ignored by the runtime, a negative length panics
+			r.Check(s.Lo, rule, construct+" | non-negative", pos, "wire count proven >= 0 on every path to this "+s.Kind, "no guard proves the value non-negative", facts...)
+		}
+		r.Check(s.Hi, rule, construct+" | bounded above", pos, "wire count compared with the remaining size (or a constant) on every path to this "+s.Kind, "nothing bounds the value", facts...)
+	}
+	r.Analysed["legacy_decoder_functions"] = len(scope)
+	// the current tree has no such sink left in these functions; what keeps the rule from passing vacuously is the
+	// number of places where a wire value enters them
+	nSources := 0
+	for fn := range scope {
+		for _, b := range fn.Blocks {
+			for _, ins := range b.Instrs {
+				if c, ok := ins.(*ssa.Call); ok {
+					if _, _, isSrc := cfg.OutSource(c); isSrc {
+						nSources++
+					}
+				}
+			}
+		}
+	}
+	r.Check(true, rule, fmt.Sprintf("functions reachable from decodeMemberMetadata/decodeMemberAssignments: wire values enter at the readIntN/readArrayLen call sites, %d sinks reached", len(sinks)), p.Pos(roots[0].Pos()), "every sink bounded", "")
+	r.RequireCount(rule, nSources, 5)
 }
 
 // c20FixedOffsets: RecordSet.ReadFrom looks at the magic byte of the next batch, at a fixed offset, before decoding
